@@ -181,7 +181,8 @@ mod verif_kani_svob {
             }
             last = Some(x);
         });
-        assert!(seen_set == if t < a.size && has(&a, t) { 1 } else { 0 });
+        let want_seen = if t < a.size && has(&a, t) { 1 } else { 0 };
+        assert!(seen_set == want_seen);
         assert!(increasing);
     }
     fn iter_unset_h<const W: usize>() {
@@ -193,7 +194,8 @@ mod verif_kani_svob {
                 seen_unset += 1;
             }
         });
-        assert!(seen_unset == if t < a.size && !has(&a, t) { 1 } else { 0 });
+        let want_unseen = if t < a.size && !has(&a, t) { 1 } else { 0 };
+        assert!(seen_unset == want_unseen);
     }
     fn iter_entries_h<const W: usize>() {
         let a = mk::<W>(true);
@@ -206,7 +208,8 @@ mod verif_kani_svob {
                 val_ok = val_ok && b == has(&a, t);
             }
         });
-        assert!(seen == if t < a.size { 1 } else { 0 } && val_ok);
+        let want_n = if t < a.size { 1 } else { 0 };
+        assert!(seen == want_n && val_ok);
     }
     #[kani::proof]
     #[kani::unwind(35)]
